@@ -344,6 +344,37 @@ class ChunkModel:
         return ks
 
 
+def reader_format_table(m):
+    """{variant name: value of the two top bits of the first byte for which get_format returns it}: get_format is replayed once
+    per class of the byte (top bits 00, 01, 10, 11), so the table is the same for a mask-and-match, a shift, a chain of
+    comparisons.  A class for which more than one variant (or none) can be returned is left out."""
+    gf = m.b["get_format"]
+    it0 = m.ctx.top_interp(gf.key)
+    table = {}
+    if it0 is None or gf.arg_count != 1:
+        return table
+    pty = gf.locals[1]["t"]
+    p = State().read((it0.L(1), ()))
+    byte = State().read((("P", p), ())) if pty.get("k") == "ref" else p
+    for cls in range(4):
+        base = m.ctx.entries.get(gf.key)
+        E = base.copy() if base is not None else State()
+        set_ty(byte, "u8")
+        E.doms[byte] = Dom(64 * cls, 64 * cls + 63)
+        ex = grammar.trace(m.env, gf.key, "r", entry=E)
+        got = set()
+        for path in ex.paths:
+            r = [t for t in path if t[0] == "returns"]
+            if path and path[-1][0] == "end" and path[-1][1] in ("ok", "ret") and r:
+                mm = re.match(r"^ChunkHeaderFormat::(\w+)$", r[-1][1])
+                got.add(mm.group(1) if mm else None)
+            elif path and path[-1][0] == "end" and path[-1][1] != "ret":
+                got.add(None)
+        if len(got) == 1 and None not in got:
+            table.setdefault(next(iter(got)), []).append(cls)
+    return {vn: cl[0] for vn, cl in table.items() if len(cl) == 1}
+
+
 def interval_from_decisions(path, var_sub, lo=0, hi=4294967295):
     """refine [lo,hi] for the variable whose rendering contains var_sub by the comparison decisions on a path"""
     for t in path:
